@@ -12,7 +12,8 @@ def run_block(chk, repo, rid_prefix, q, kind, single_rule=None, rule_override=No
     # behaviour-preserving spellings are rewritten into the one the engine knows (sa/blocknorm.py)
     from ..blocknorm import normalise
     from ..canon import CanonFunc
-    fi = CanonFunc(fi, normalise(fi.node), {})
+    helpers = {n_: f_.node for n_, f_ in repo.modules[fi.module].functions.items()}
+    fi = CanonFunc(fi, normalise(fi.node, helpers), {})
     items = []
 
     def report(k, node, ok, text):
